@@ -14,10 +14,11 @@ import os
 import re
 import sys
 
+from harness import common, netepi, tlc
+from harness import c08_oracle as O      # sets the BLAS thread count before numpy is imported
+
 import numpy as np
 
-from harness import common, netepi, tlc
-from harness import c08_oracle as O
 from harness import c08_cases as K
 from harness.common import Check, MachineryFailure, pool_map, RATE_UNIT
 
@@ -80,8 +81,7 @@ def c1_runs(tier):
     s4 = tree_shapes(4)
     for i, edges in enumerate(s4):
         taus, gams = ({2}, {1}) if tier == "quick" else ({1, 2}, {1, 2})
-        add("shape4.%d-weighted" % i, O.tree_consts(4, W, W, taus, gams, shape=O.shape_of_edges(4, edges)),
-            ["sorted"] if tier == "quick" else ORD3, True)
+        add("shape4.%d-weighted" % i, O.tree_consts(4, W, W, taus, gams, shape=O.shape_of_edges(4, edges)), ["sorted"], True)
     for i, edges in enumerate(tree_shapes(5)):
         add("shape5.%d-unit" % i, O.tree_consts(5, {1}, {1}, {1, 2}, {1, 2}, shape=O.shape_of_edges(5, edges)),
             ["sorted", "rotated-nodelist"], False)
@@ -90,10 +90,11 @@ def c1_runs(tier):
     if tier != "quick":
         for tau in (1, 2):
             for gam in (1, 2):
-                add("trees5-unit-t%dg%d" % (tau, gam), O.tree_consts(5, {1}, {1}, {tau}, {gam}, checkdefs=(tau == gam == 1)),
-                    ["sorted", "rotated-nodelist"], False)
+                add("trees5-unit-t%dg%d" % (tau, gam), O.tree_consts(5, {1}, {1}, {tau}, {gam}, checkdefs=(tau == gam == 1)), ["sorted"], False)
         for i, edges in enumerate(tree_shapes(5)):
-            add("shape5.%d-weighted" % i, O.tree_consts(5, W, W, {2}, {1}, shape=O.shape_of_edges(5, edges)), ["sorted"], True)
+            sh = O.shape_of_edges(5, edges)
+            add("shape5.%d-edgeweighted" % i, O.tree_consts(5, W, {1}, {2}, {1}, shape=sh), ["sorted"], True)
+            add("shape5.%d-nodeweighted" % i, O.tree_consts(5, {1}, W, {2}, {1}, shape=sh), ["sorted"], True)
         for i, edges in enumerate(tree_shapes(6)):
             sh = O.shape_of_edges(6, edges)
             add("shape6.%d-unit" % i, O.tree_consts(6, {1}, {1}, {1, 2}, {1, 2}, shape=sh), ["sorted", "rotated-nodelist"], False)
@@ -788,16 +789,14 @@ def main(argv=None):
     chk = Check("C08", "model_checking")
     only = os.environ.get("C08_ONLY")          # development aid: comma-separated clause numbers
     sel = set(only.split(",")) if only else {"1", "2", "3", "4", "5"}
-    if "1" in sel:
-        clause1(chk)
-    if "2" in sel:
-        clause2(chk)
-    if "3" in sel:
-        clause3(chk)
-    if "4" in sel:
-        clause4(chk)
-    if "5" in sel:
-        clause5(chk)
+    import time
+    for num, fn in (("1", clause1), ("2", clause2), ("3", clause3), ("4", clause4), ("5", clause5)):
+        if num in sel:
+            t0 = time.time()
+            fn(chk)
+            chk.part("clause%s wall time" % num, wall_s=round(time.time() - t0, 1))
+            print("clause %s done in %.0fs" % (num, time.time() - t0))
+            sys.stdout.flush()
     chk.assumptions += [
         "TLC, scipy.linalg.expm and float arithmetic are trusted; the generator matrix is assembled from TLC's printed transitions with one rate numerator = %g per unit time" % RATE_UNIT,
         "tolerances: clause 1 %g absolute on S,I,R; clause 3 %g*N (%g*N for SIS_pair_based* and SIS_heterogeneous_pairwise*, which integrate with vode/adams at its default rtol=1e-6 instead of odeint); "
